@@ -16,6 +16,9 @@ use runner::{Property, Tier};
 fn property(id: &str) -> Option<Box<dyn Property>> {
     match id {
         "C02" => Some(Box::new(props::c02::C02)),
+        "C03" => Some(Box::new(props::c03::C03)),
+        "C04" => Some(Box::new(props::c04::C04)),
+        "C10" => Some(Box::new(props::c10::C10)),
         _ => None,
     }
 }
